@@ -27,7 +27,7 @@ RULE = (
     "ordered tables of <=3 (quick) / <=4 (thorough) routes over 2 bases x prefixes {8,16,24,28,32} x metrics {0,1,5}, with "
     "and without default, x 9 covering destinations are enumerated in blocks sharing their first two routes (one harness "
     "case per block; exact table / lookup counts in coverage.lpm_*); plus random tables through add_route. kind=topo: a "
-    "generated topology spec (families lan/routed/dmz/wifi/loop/ring) and an op list (ping / dns exchange for ordered host "
+    "generated topology spec (families lan/routed/shared/dmz/wifi/loop/ring) and an op list (ping / dns exchange for ordered host "
     "pairs cold and warm, pings of unowned addresses, ARP-cache flushes, interface and power toggles with ticks); "
     "each exchange is compared with the reference reachability walk, monitors run throughout. Non-trivial: a routes "
     "block in which some lookup had >=2 routes containing the destination; a topo case with >=1 executed exchange "
@@ -225,6 +225,9 @@ def _esig(e: BaseException) -> str:
         import traceback
 
         names = [fr.name for fr in traceback.extract_tb(e.__traceback__)]
+        if names.count("receive_frame") < 10 and \
+                names.count("_get_arp_cache_mac_address") + names.count("_get_arp_cache_network_interface") >= 10:
+            return "RecursionError:arp-resolution-loop"  # the resolver calls itself, no frame travels in the cycle
         if names.count("send_arp_request") >= 10:
             return "RecursionError:arp-request-loop"
         if names.count("receive_payload_from_session_manager") >= 10:
@@ -276,21 +279,15 @@ def run_topo(case: Dict) -> CaseResult:
     mon.install()
     if sys.getrecursionlimit() < 3000:
         sys.setrecursionlimit(3000)
+    n_ops = len(ops)
     try:
-        game = new_game(build_cfg(spec))
+        game = new_game(build_cfg(spec, n_domains=n_ops))
     except Exception as e:  # every generated scenario uses documented keys only
         res.violate(f"raise:build:{exc_sig(e)}", exc_msg(e))
         return res
     net = game.simulation.network
     from ipaddress import IPv4Address
 
-    # service set-up through the documented API
-    n_ops = len(ops)
-    for h in ref.hosts:
-        if ref.node[h]["dns"]:
-            srv = net.get_node_by_hostname(h).software_manager.software.get("dns-server")
-            for i in range(n_ops):
-                srv.dns_register(f"q{i}.test", IPv4Address("10.99.0.1"))
     rec = mon.Recorder()
     # a ping is 4 echo requests + 4 replies; each of these frames is processed by at most 64 nodes (TTL), and every
     # processing may trigger ARP resolution for at most 3 addresses (destination, route next hop, default next hop), a
@@ -351,7 +348,10 @@ def run_topo(case: Dict) -> CaseResult:
                 else:
                     b = op[2]
                     dst_ip = ref.node[b]["ip"]
+                    ref.saw_hairpin = False
                     expected = ref.exchange(a, b, st_)
+                    if ref.saw_hairpin and expected is not None:
+                        labels.add(f"hairpin:{'ok' if expected else 'fail'}")
                     pair = frozenset((a, b))
                     phase = "warm" if pair in seen_pairs else "cold"
                     seen_pairs.add(pair)
@@ -431,6 +431,8 @@ def run_topo(case: Dict) -> CaseResult:
         res.label(f"excluded:{FOREIGN_IP_FINDING}")
     for m in spec.get("muts", []):
         res.label(f"mut:{m}")
+    if any(n.get("off") for n in spec["nodes"]):
+        res.label("declared-off", *sorted({f"declared-off:{n['k']}" for n in spec["nodes"] if n.get("off")}))
     if rec.ttl_drops:
         res.label("ttl-exhausted")
     res.label(f"ops<{(len(ops) // 25 + 1) * 25}")
@@ -485,7 +487,8 @@ def _blocks(maxlen: int):
 
 FAMILY_PLAN = {
     # family -> (quick examples per worker, thorough examples per worker)
-    "routed": (14, 300),
+    "routed": (12, 280),
+    "shared": (5, 80),
     "dmz": (4, 80),
     "lan": (5, 60),
     "wifi": (3, 60),
@@ -525,5 +528,8 @@ def worker(ctx: Ctx):
     # likewise for "hosts accept frames for foreign IP addresses": no routes whose next hop is a host while it is open
     avoid_nh = bool(ctx.excl.get(FOREIGN_IP_FINDING))
     for sub, (family, (nq, nt)) in enumerate(FAMILY_PLAN.items(), start=2):
+        if family == "shared" and avoid:
+            ctx.extra["excluded_family_shared"] = 1  # hosts on a segment with two routing devices: see STORM_FINDING
+            continue
         hyp_run(ctx, gen.topo_case(family, avoid_storm=avoid, avoid_nh_host=avoid_nh), run_case, nq if quick else nt,
                 sub=sub)
